@@ -341,6 +341,47 @@ def d3_sqlite_run(carve):
     return o
 
 
+def d10_run(carve):
+    """shift(n, fill_value) for n > 0 and n < 0 on columns of every sample type: the exported type is the static type on
+    Polars and has its family on SQLite (Bool as 0/1 integer allowed, dates / datetimes are dates / datetimes)"""
+    import polars as pl
+    import sqlalchemy as sqa
+
+    fr = frames().select("i64", "f64", "s", "b", "d", "dt", "g").with_columns(h=pl.Series([0, 1, 2]))
+    eng = sqa.create_engine("sqlite://")
+    fr.write_database("t", eng)
+    fills = {"i64": 7, "f64": 1.5, "s": "zz", "b": True, "d": datetime.date(2001, 2, 3), "dt": datetime.datetime(2001, 2, 3, 4, 5, 6)}
+    n, bad = 0, []
+    with warnings.catch_warnings():
+        warnings.simplefilter("ignore")
+        for be, t in (("polars", pdt.Table(fr, name="t")), ("sqlite", pdt.Table("t", pdt.SqlAlchemy(eng)))):
+            for cname, fill in fills.items():
+                for k in (1, -1, 2, -2):
+                    for with_fill in (True, False):
+                        n += 1
+                        lab = f"[{be}] {cname}.shift({k}{', ' + repr(fill) if with_fill else ''}, arrange=h)"
+                        try:
+                            x = t >> pdt.mutate(r=t[cname].shift(k, fill, arrange=t.h) if with_fill else t[cname].shift(k, arrange=t.h))
+                            out = x >> pdt.arrange(t.h) >> pdt.export(pdt.Polars())
+                        except Exception as e:  # noqa: BLE001
+                            bad.append(f"{lab}: {type(e).__name__}: {str(e)[:100]}")
+                            continue
+                        st = T.without_const(x.r.dtype())
+                        got = out.schema["r"]
+                        src = fr[cname].to_list()
+                        want = [(src[i - k] if 0 <= i - k < 3 else (fill if with_fill else None)) for i in range(3)]
+                        if out["r"].to_list() != want and not (be == "sqlite" and cname == "b" and [None if v is None else bool(v) for v in out["r"].to_list()] == want):
+                            bad.append(f"{lab}: values {out['r'].to_list()}, documented {want}")
+                        if be == "polars":
+                            msg = check_type(st, got)
+                        else:
+                            fs, fg = TU.family(st), TU.family(Dtype.from_polars(got)) if got != pl.Null else TU.family(st)
+                            msg = None if fs == fg or (fs == "bool" and fg == "int") else f"static family {fs} ({st}), exported {got}"
+                        if msg:
+                            bad.append(f"{lab}: {msg}")
+    return _enum_outcome("shift with and without a fill value, forwards and backwards: documented values, exported type = static type (family on SQLite)", n, bad)
+
+
 def d9_run(carve):
     """columns of parametrised types (Decimal(p, s), Enum): the static type of expressions over them predicts the exported type"""
     import decimal
@@ -560,6 +601,8 @@ def obligations(tier):
         Obligation("C12/D3/sqlite_ops", "D3", "exported SQLite column family vs static type", d3_sqlite_run, functions=[fi(H.sql_backend.SqlImpl.compile_col_expr), fi(H.sql_backend.SqlImpl.export), fi(H.sqlite_backend.SqliteImpl.fix_fn_types)], bounded="Int64/Float64/String/Bool columns, arity <= 2 (native SQLite execution)", carveouts={"sqlite_dynamic_typing": "int/float family under SQLite's dynamic typing"}),
         Obligation("C12/D6/verbs", "D6", "exported dtypes of all columns after enumerated pipelines (joins with differently typed keys, unions, summarize, windows)", d6_run, functions=[fi(H.polars_backend.compile_ast), fi(H.sql_backend.SqlImpl.export), fi(pdt._internal.pipe.cache.Cache.update)],
                    bounded="pipelines of depth <= 2 over the C01 step alphabet plus 6 joins with Int32/Float64 == Int64 keys; one input table; native execution on Polars and SQLite", carveouts={"sqlite_dynamic_typing": "int/float family under SQLite's dynamic typing", "int_as_float": "Int column through a Float-only operator"}),
+        Obligation("C12/D10/shift_fill_types", "D10", "shift(+-n, fill_value) on Int / Float / String / Bool / Date / Datetime columns: values and exported types on both backends", d10_run, functions=[fi(H.sql_backend.SqlImpl.compile_col_expr)],
+                   bounded="6 column types x 4 offsets x with / without fill x 2 backends on a 3-row frame"),
         Obligation("C12/D9/parametrised_columns", "D9", "Decimal(p, s) / Enum columns: static vs exported type of 12 expressions (Polars)", d9_run, functions=[fi(H.types_mod.lca_type), fi(pdt._internal.ops.signature.SignatureTrie.best_match) if hasattr(pdt._internal.ops.signature, "SignatureTrie") else fi(H.types_mod.lca_type)],
                    bounded="12 expressions over one Decimal(10, 2) and one Enum column", carveouts={"parametrised_types": "the six expressions named by F-parametrised-static-types"}),
         Obligation("C12/D8/union_types", "D8", "union: static column types are the common types of the operand columns by name; exported dtypes follow", d8_run, functions=[fi(pdt._internal.pipe.cache.Cache.update), fi(H.polars_backend.compile_ast), fi(H.sql_backend.SqlImpl.compile_ast)],
